@@ -377,6 +377,14 @@ def run(ctx):
         ctx.floor("R20.1", "Status::Ok results", n_ok, 1)
         ctx.ob("R20.1", site_key(fn, "unknown session => error status, nothing sent"), miss_session, fn.where, "the None-continuation of the session lookup returns an error: %s" % miss_session)
         ctx.ob("R20.1", site_key(fn, "missing event name => error status, nothing sent"), miss_name, fn.where, "the None-continuation of the event-name option returns an error: %s" % miss_name)
+        # a valid POST must not be refused because another thread happens to hold a lock: the handler waits for the locks it needs
+        # (the Err arm of Mutex::lock is poisoning only; try_lock turns ordinary contention into an error status)
+        tries = [(b, t) for b, t in fn.mir_calls("Mutex::try_lock")]
+        locks = [(b, t) for b, t in fn.mir_calls("Mutex::lock")]
+        ctx.floor("R20.1", "lock acquisitions in the request handler", len(locks) + len(tries), 1)
+        ctx.ob("R20.1", site_key(fn, "handler waits for its locks (no try_lock)"), not tries, fn.where,
+               "%d blocking lock(s), %d try_lock(s)%s" % (len(locks), len(tries), "" if not tries else
+                                                         ": a request that meets contention is answered with an error and enqueues nothing"))
     ctx.guard("R20.1", r1)
 
     # -------------------------------------------------------------------------------------------- R20.2
